@@ -338,17 +338,34 @@ def gitems(items):
 EXN = {"AssertionError", "NoSuchRecording", "EncodeError", "DecodeError", "ShapeError", "InjectedCrash"}
 
 
-def gmut(e):
-    return "(%s %s)" % ("MPut" if e[0] == "put" else "MDel", gstr(e[1]))
+class KeyNames(object):
+    """The bucket keys of a case are listed again after every call: each distinct key text is bound once per case
+    (`let k3 := U "..." in`) and referred to by name (parsing a string literal is what the elaboration of a shard spends
+    its time on)."""
+    def __init__(self):
+        self.names = {}
+
+    def __call__(self, key):
+        if key not in self.names:
+            self.names[key] = "k%d" % len(self.names)
+        return self.names[key]
+
+    def wrap(self, term):
+        lets = "".join("let %s := %s in " % (n, gstr(k)) for k, n in self.names.items())
+        return "(%s%s)" % (lets, term) if lets else term
 
 
-def gobs(o):
+def gmut(e, kn=gstr):
+    return "(%s %s)" % ("MPut" if e[0] == "put" else "MDel", kn(e[1]))
+
+
+def gobs(o, kn=gstr):
     res = o["res"]
     unknown = res != "ok" and res not in EXN
     return "(Obs %s %s %s %s %s)" % (
         gbool(unknown), "None" if res == "ok" or unknown else "(Some %s)" % res,
-        gopt(gstr(o["id"]) if "id" in o else None), glist([gmut(e) for e in o["log"]]),
-        glist([gstr(k) for k, _ in o["objs"]]))
+        gopt(gstr(o["id"]) if "id" in o else None), glist([gmut(e, kn) for e in o["log"]]),
+        glist([kn(k) for k, _ in o["objs"]]))
 
 
 def gq(fr):
@@ -360,6 +377,7 @@ def to_gallina(case, obs):
         return "Case [] [(RCall 0%nat CClose, Obs true None None [] [])]"
     slots = {}
     terms = []
+    kn = KeyNames()
     for op, o in zip(case["ops"], obs["ops"]):
         kind = op["op"]
         if kind == "raw_put":
@@ -406,8 +424,8 @@ def to_gallina(case, obs):
         if o["res"] == "no-slot":
             t = "RSkip"
             o = dict(o, res="ok")
-        terms.append("(%s, %s)" % (t, gobs(o)))
-    return "Case %s %s" % (glist([gcfg(c) for c in case["cassettes"]]), glist(terms))
+        terms.append("(%s, %s)" % (t, gobs(o, kn)))
+    return kn.wrap("Case %s %s" % (glist([gcfg(c) for c in case["cassettes"]]), glist(terms)))
 
 
 def explain(case, obs):
